@@ -6,15 +6,15 @@ namespace GPy.C10.Expected
 
 /-- contract-guarded sites whose format does NOT guarantee the asserted type -/
 def contractNotDischarged : List String := [
-  ]
+  "py/classmethod.go:init·closure:assert:self.(*ClassMethod)#0",
+  "py/staticmethod.go:init·closure:assert:self.(*StaticMethod)#0"]
 
-def openCount : Nat := 151
+def openCount : Nat := 72
 
-def openIndexCount : Nat := 258
+def openIndexCount : Nat := 259
 
 /-- every unchecked type assertion / explicit panic no modelled contract covers -/
 def openKeys : List String := [
-  "py/bytes.go:init·closure:assert:self.(Bytes)#0",
   "py/classmethod.go:init·closure:assert:self.(*ClassMethod)#0",
   "py/code.go:NewCode:assert:cellvarsTuple[i].(String)#0",
   "py/code.go:NewCode:assert:cellvars_.(Tuple)#0",
@@ -33,92 +33,21 @@ def openKeys : List String := [
   "py/code.go:intern_strings:assert:v_.(String)#0",
   "py/complex.go:ComplexNew:assert:imag.(Float)#0",
   "py/complex.go:ComplexNew:assert:real.(Float)#0",
-  "py/complex.go:init·closure:assert:self.(Complex)#0",
-  "py/complex.go:init·closure:assert:self.(Complex)#1",
-  "py/complex.go:init·closure:assert:self.(Complex)#2",
   "py/dict.go:init·closure:assert:other.(StringDict)#0",
-  "py/dict.go:init·closure:assert:self.(StringDict)#0",
-  "py/dict.go:init·closure:assert:self.(StringDict)#1",
-  "py/dict.go:init·closure:assert:self.(StringDict)#2",
-  "py/dict.go:init·closure:assert:self.(StringDict)#3",
-  "py/dict.go:init·closure:assert:self.(StringDict)#4",
-  "py/dict.go:init·closure:assert:self.(StringDict)#5",
-  "py/dict.go:init·closure:assert:self.(StringDict)#6",
-  "py/dict.go:init·closure:assert:self.(StringDict)#7",
-  "py/dict.go:init·closure:assert:self.(StringDict)#8",
   "py/exception.go:(*Exception).M__repr__:assert:e.Args.(Tuple)#0",
   "py/exception.go:(*Exception).M__repr__:assert:msg.(String)#0",
   "py/exception.go:ExceptionGivenMatches:assert:err.(*Type)#0",
   "py/exception.go:ExceptionGivenMatches:assert:exc.(*Type)#0",
   "py/file.go:(*File).Write:assert:err.(*os.PathError)#0",
-  "py/file.go:init·closure:assert:self.(*File)#0",
-  "py/file.go:init·closure:assert:self.(*File)#1",
-  "py/file.go:init·closure:assert:self.(*File)#2",
-  "py/file.go:init·closure:assert:self.(*File)#3",
-  "py/file.go:init·closure:assert:self.(*File)#4",
   "py/frame.go:dict_to_map:panic:panic(\"dict_to_map: expecting Cell\")#0",
   "py/frame.go:map_to_dict:panic:panic(\"map_to_dict: expecting Cell\")#0",
-  "py/function.go:init·closure:assert:self.(*Function)#0",
-  "py/function.go:init·closure:assert:self.(*Function)#1",
-  "py/function.go:init·closure:assert:self.(*Function)#2",
-  "py/function.go:init·closure:assert:self.(*Function)#3",
-  "py/function.go:init·closure:assert:self.(*Function)#4",
-  "py/function.go:init·closure:assert:self.(*Function)#5",
-  "py/function.go:init·closure:assert:self.(*Function)#6",
-  "py/function.go:init·closure:assert:self.(*Function)#7",
-  "py/function.go:init·closure:assert:self.(*Function)#8",
-  "py/function.go:init·closure:assert:self.(*Function)#9",
-  "py/function.go:init·closure:assert:self.(*Function)#10",
-  "py/function.go:init·closure:assert:self.(*Function)#11",
-  "py/function.go:init·closure:assert:self.(*Function)#12",
-  "py/function.go:init·closure:assert:self.(*Function)#13",
-  "py/function.go:init·closure:assert:self.(*Function)#14",
-  "py/function.go:init·closure:assert:self.(*Function)#15",
-  "py/function.go:init·closure:assert:self.(*Function)#16",
-  "py/generator.go:init·closure:assert:self.(*Generator)#0",
-  "py/generator.go:init·closure:assert:self.(*Generator)#1",
-  "py/generator.go:init·closure:assert:self.(*Generator)#2",
-  "py/import.go:XImportModuleLevelObject:assert:x.(Bool)#0",
-  "py/list.go:init·closure:assert:self.(*List)#0",
-  "py/list.go:init·closure:assert:self.(*List)#1",
-  "py/list.go:init·closure:assert:self.(*List)#2",
-  "py/list.go:init·closure:assert:self.(*List)#3",
-  "py/list.go:init·closure:assert:self.(*List)#4",
-  "py/list.go:init·closure:assert:self.(*List)#5",
-  "py/list.go:init·closure:assert:self.(*List)#6",
-  "py/list.go:init·closure:assert:self.(*List)#7",
   "py/method.go:(*Method).Call:panic:panic(fmt.Sprintf(\"Unknown method type: %T\", m.method))#0",
   "py/method.go:(*Method).CallWithKeywords:panic:panic(fmt.Sprintf(\"Unknown method type: %T\", m.method))#0",
   "py/set.go:(*Set).inplace:assert:res.(*Set)#0",
-  "py/set.go:init·closure:assert:self.(*Set)#0",
-  "py/set.go:init·closure:assert:self.(*Set)#1",
-  "py/set.go:init·closure:assert:self.(*Set)#2",
-  "py/set.go:init·closure:assert:self.(*Set)#3",
-  "py/set.go:init·closure:assert:self.(*Set)#4",
-  "py/set.go:init·closure:assert:self.(*Set)#5",
-  "py/slice.go:init·closure:assert:self.(*Slice)#0",
-  "py/slice.go:init·closure:assert:self.(*Slice)#1",
-  "py/slice.go:init·closure:assert:self.(*Slice)#2",
   "py/staticmethod.go:init·closure:assert:self.(*StaticMethod)#0",
   "py/string.go:(String).Count:assert:pysub.(String)#0",
   "py/string.go:(String).Split:assert:pymax.(Int)#0",
   "py/string.go:(String).find:assert:pysub.(String)#0",
-  "py/string.go:init·closure:assert:self.(String)#0",
-  "py/string.go:init·closure:assert:self.(String)#1",
-  "py/string.go:init·closure:assert:self.(String)#2",
-  "py/string.go:init·closure:assert:self.(String)#3",
-  "py/string.go:init·closure:assert:self.(String)#4",
-  "py/string.go:init·closure:assert:self.(String)#5",
-  "py/string.go:init·closure:assert:self.(String)#6",
-  "py/string.go:init·closure:assert:self.(String)#7",
-  "py/string.go:init·closure:assert:self.(String)#8",
-  "py/string.go:init·closure:assert:self.(String)#9",
-  "py/string.go:init·closure:assert:self.(String)#10",
-  "py/string.go:init·closure:assert:self.(String)#11",
-  "py/traceback.go:init·closure:assert:self.(*Traceback)#0",
-  "py/traceback.go:init·closure:assert:self.(*Traceback)#1",
-  "py/traceback.go:init·closure:assert:self.(*Traceback)#2",
-  "py/traceback.go:init·closure:assert:self.(*Traceback)#3",
   "py/type.go:(*Type).IsSubtype:assert:baseObj.(*Type)#0",
   "py/type.go:(*Type).Lookup:assert:baseObj.(*Type)#0",
   "py/type.go:(*Type).Ready:panic:panic(\"Type.Ready Dict is nil\")#0",
@@ -131,9 +60,6 @@ def openKeys : List String := [
   "py/util.go:Println:assert:self.(*Module)#0",
   "stdlib/builtin/builtin.go:builtinExit:assert:exc.(*py.Exception)#0",
   "stdlib/builtin/builtin.go:builtin___build_class__:assert:nsObj.(py.StringDict)#0",
-  "stdlib/builtin/builtin.go:builtin_ascii:assert:reprObj.(py.String)#0",
-  "stdlib/builtin/builtin.go:builtin_input:assert:self.(*py.Module)#0",
-  "stdlib/builtin/builtin.go:builtin_print:assert:self.(*py.Module)#0",
   "vm/eval.go:(*Vm).Call:panic:panic(\"vm: Odd length kwargsTuple\")#0",
   "vm/eval.go:(*Vm).UnwindExceptHandler:panic:panic(\"vm: Couldn't find traceback on stack\")#0",
   "vm/eval.go:RunFrame:assert:vm.retval.(py.Int)#0",
@@ -153,13 +79,9 @@ def openKeys : List String := [
   "vm/eval.go:do_END_FINALLY:panic:panic(\"vm: Unexpected whyException in END_FINALLY\")#0",
   "vm/eval.go:do_END_FINALLY:panic:panic(\"vm: Unexpected whyYield in END_FINALLY\")#0",
   "vm/eval.go:do_IMPORT_STAR:assert:from.(*py.Module)#0",
-  "vm/eval.go:do_JUMP_IF_FALSE_OR_POP:assert:b.(py.Bool)#0",
-  "vm/eval.go:do_JUMP_IF_TRUE_OR_POP:assert:b.(py.Bool)#0",
   "vm/eval.go:do_LIST_APPEND:assert:v.(*py.List)#0",
   "vm/eval.go:do_LOAD_CLASSDEREF:assert:vm.frame.CellAndFreeVars[i].(*py.Cell)#0",
   "vm/eval.go:do_LOAD_DEREF:assert:vm.frame.CellAndFreeVars[i].(*py.Cell)#0",
-  "vm/eval.go:do_POP_JUMP_IF_FALSE:assert:b.(py.Bool)#0",
-  "vm/eval.go:do_POP_JUMP_IF_TRUE:assert:b.(py.Bool)#0",
   "vm/eval.go:do_RAISE_VARARGS:panic:panic(\"vm: Bad RAISE_VARARGS argc\")#0",
   "vm/eval.go:do_SET_ADD:assert:v.(*py.Set)#0",
   "vm/eval.go:do_STORE_DEREF:assert:vm.frame.CellAndFreeVars[i].(*py.Cell)#0",
